@@ -231,7 +231,7 @@ WANT_OP = {'diag': '<= 1', 'anti': '<= 1', 'row': '= 1', 'col': '= 1'}
 
 def rule_queens(F, R):
     c = F.crate('n_queens_gen')
-    t = c.thir.get('n_queens_gen::main') if c else None
+    t = c.ithir.get('n_queens_gen::main') if c else None
     if t is None:
         R.violation('n_queens_gen::main / N / anchor', 'UNDECIDABLE', 'n_queens_gen::main not found'); return
     # the board-size variable: the let-binding initialised from args.queens
